@@ -38,7 +38,10 @@ def kfl_vs_lattice(tf, tfl, ctx, rng, n):
     dims = int(rng.integers(1, 5))
     terms = int(rng.integers(1, 4))
     units = int(rng.choice([1, 2]))
-    if L ** dims > 300:
+    if j % 8 == 3:
+      # high rank: the dense lattice switches to another way of forming its interpolation weights after 7 dimensions
+      L, dims, terms = 2, int(rng.choice([8, 9])), int(rng.integers(1, 3))
+    if L ** dims > 600:
       continue
     c = {"L": L, "dims": dims, "terms": terms, "mono": [0] * dims, "hasMin": False, "omin": [0, 1], "hasMax": False,
          "omax": [1, 1], "clip": bool(j % 2)}
@@ -52,8 +55,13 @@ def kfl_vs_lattice(tf, tfl, ctx, rng, n):
     # dense kernel: bias + mean_t scale_t * outer product over dims of w[:, d, t]
     dense = np.zeros((L ** dims, units), dtype=np.float64)
     for u in range(units):
-      for vi, v in enumerate(itertools.product(range(L), repeat=dims)):
-        dense[vi, u] = Bv[u] + np.mean([S[u, t] * np.prod([W[u, v[d], d, t] for d in range(dims)]) for t in range(terms)])
+      acc = np.zeros(L ** dims)
+      for t in range(terms):
+        outer = np.ones(1)
+        for d in range(dims):                    # row-major: dimension 0 is the most significant index
+          outer = np.multiply.outer(outer, W[u, :, d, t].astype(np.float64)).reshape(-1)
+        acc += S[u, t] * outer
+      dense[:, u] = Bv[u] + acc / terms
     lat = tfl.layers.Lattice(lattice_sizes=[L] * dims, units=units, clip_inputs=c["clip"])
     lat.build((None, dims) if units == 1 else (None, units, dims))
     lat.kernel.assign(dense.astype(np.float32))
